@@ -8,7 +8,7 @@
    Reading guide: [sstate] is the map; [sexec] is one request; a deadline of 0 means "none"
    (that is the convention of the wire format and of the log), so has-deadline = (s_ex <> 0). *)
 From Coq Require Import String Ascii.
-From T38 Require Import Base.Bytes Base.SMap Model.Field Model.Object Model.Glob.
+From T38 Require Import Base.Bytes Base.SMap Model.Field Model.Object Model.Glob Model.Cursor.
 Local Open Scope N_scope.
 
 (* ---------- byte-string literals ---------- *)
@@ -47,6 +47,7 @@ Record oracle := mkOracle {
   o_float_ok : bytes -> bool;                       (* strconv.ParseFloat(s, 64) succeeds *)
   o_dur : bytes -> Z;                               (* int64(float64(time.Second) * ParseFloat(s)) *)
   o_int : bytes -> option Z;                        (* strconv.ParseInt(s, 10, 64) *)
+  o_uint : bytes -> option N;                       (* strconv.ParseUint(s, 10, 64) *)
   o_lower : bytes -> bytes;                         (* strings.ToLower *)
   o_mkgeo : N -> list bytes -> gres;                (* NewPoint/NewPointZ/NewRect/geohash.Decode/geojson.Parse *)
   o_point : geo -> list bytes;                      (* RESP "POINT" rendering: lat lon [z] *)
@@ -84,7 +85,7 @@ Inductive req :=
 | QTtl (key id : bytes)
 | QType (key : bytes)
 | QKeys (pat : bytes)
-| QScan (key : bytes) (ids : bool)
+| QScan (key : bytes) (cursor limit : N) (globs : list bytes) (desc : bool) (out : N) (nofields : bool)
 | QJget (key id : bytes) (path : option bytes) (raw : bool).
 
 (* ---------- error texts (token.go) ---------- *)
@@ -192,11 +193,45 @@ Definition ttl_reply (now ex : Z) : reply :=
 
 Definition bool_reply (b : bool) : reply := RInt (if b then 1 else 0).
 
-(* SCAN key [IDS] without cursor/limit/filters: cursor 0 and every object in id order *)
-Definition scan_item (O : oracle) (ids : bool) (io : bytes * sobj) : reply :=
-  if ids then RBulk (fst io)
+(* ---------- SCAN key [CURSOR c] [LIMIT n] [MATCH glob]... [ASC|DESC] [NOFIELDS] [IDS|OBJECTS|COUNT] ----------
+   Pagination is C11's subject: the selection below is its model (Model/Cursor.v: [page] over the id
+   order, Collection.Scan or ScanRange with the limits of multiGlobParse), used as it is by the
+   handler model and by the specification. *)
+Definition OUT_OBJECTS : N := 0.
+Definition OUT_IDS : N := 1.
+Definition OUT_COUNT : N := 2.
+Definition max_uint64 : N := 18446744073709551615.
+
+Definition glob_everything (globs : list bytes) : bool :=
+  match globs with
+  | [] => true
+  | [p] => bytes_eqb p [STAR]
+  | _ => false
+  end.
+
+(* scanWriter.globMatch on ids *)
+Definition scan_test (matches : bytes -> bytes -> bool) (globs : list bytes) (id : bytes) : bool :=
+  glob_everything globs || existsb (fun p => matches p id) globs.
+
+(* the ids of one reply page and the reply cursor; [limit] is the effective limit *)
+Definition scan_select (matches : bytes -> bytes -> bool) (ids : list bytes) (cursor limit : N)
+           (globs : list bytes) (desc : bool) : list bytes * N :=
+  let '(l0, l1) := multi_glob_parse globs desc in
+  if isempty l0 && isempty l1 then scan_page (scan_test matches globs) desc ids cursor limit
+  else scan_range_page (scan_test matches globs) desc l0 l1 ids cursor limit.
+
+Definition scan_pick {V} (m : smap V) (ids : list bytes) : list (bytes * V) :=
+  flat_map (fun id => match get id m with Some v => [(id, v)] | None => [] end) ids.
+
+(* cmdScan's COUNT shortcut: count := col.Count() - int(cursor); if count < 0 { count = 0 } *)
+Definition int_of_uint64 (n : N) : Z :=
+  let z := Z.of_N n in if (z <? 9223372036854775808)%Z then z else (z - 18446744073709551616)%Z.
+
+Definition scan_item (O : oracle) (out : N) (nofields : bool) (io : bytes * sobj) : reply :=
+  if out =? OUT_IDS then RBulk (fst io)
   else RArr (RBulk (fst io) :: RBulk (g_text (s_geo (snd io))) ::
-             match fl_scan (s_fields (snd io)) with [] => [] | fs => [RArr (fields_reply fs)] end).
+             (if nofields then [] else
+              match fl_scan (s_fields (snd io)) with [] => [] | fs => [RArr (fields_reply fs)] end)).
 
 Definition hook_guard (e : env) (key newkey : bytes) : option bytes :=
   let touching := filter (fun h => bytes_eqb (fst h) key || bytes_eqb (fst h) newkey) (e_hookkeys e) in
@@ -366,12 +401,19 @@ Definition sexec (e : env) (s : sstate) (q : req) : sstate * reply * bool :=
       | Some _ => (s, ROk str_hash, false)
       end
   | QKeys pat => (s, RArr (map RBulk (filter (matches pat) (keys s))), false)
-  | QScan key ids =>
+  | QScan key cursor limit globs desc out nofields =>
       match get key s with
-      | None => (s, RArr [RInt 0; RArr []], false)
+      | None => (s, (if out =? OUT_COUNT then RInt 0 else RArr [RInt 0; RArr []]), false)
       | Some c =>
-          if (length c <? 100)%nat then (s, RArr [RInt 0; RArr (map (scan_item O ids) c)], false)
-          else (s, RUnmodelled, false)
+          if out =? OUT_COUNT then
+            if glob_everything globs then
+              (s, RInt (Z.max 0 (Z.of_nat (length c) - int_of_uint64 cursor)), false)
+            else
+              let '(ids, _) := scan_select matches (keys c) cursor (if limit =? 0 then max_uint64 else limit) globs desc in
+              (s, RInt (Z.of_nat (length ids)), false)
+          else
+            let '(ids, cur) := scan_select matches (keys c) cursor (eff_limit limit) globs desc in
+            (s, RArr [RInt (int_of_uint64 cur); RArr (map (scan_item O out nofields) (scan_pick c ids))], false)
       end
   | QJget key id path raw =>
       match lookup s key id with
